@@ -1353,13 +1353,15 @@ func (enc *VP8Encoder) EncodeFrame() ([]byte, error) {
 	if doSearch && maxPasses < 3 {
 		maxPasses = 3 // ensure enough passes for rate control convergence
 	}
-	// Use parallel encoding when:
-	// - Multiple CPU cores available (GOMAXPROCS > 1)
+	// Use the row-pipelined encoder when:
 	// - Enough rows for meaningful parallelism (mbH >= 4)
 	// - Method >= 3 (RD-based mode selection, which is the hot path)
 	// - Single-pass quality mode (no rate control iteration)
-	useParallel := runtime.GOMAXPROCS(0) > 1 && enc.mbH >= 4 && enc.config.Method >= 3 && !doSearch
-	useParallel = verifhook.Parallel(verifhook.SiteLossyUseParallel, useParallel)
+	// The choice must not depend on the CPU count: encodeFrame and
+	// encodeFrameParallel produce different (both valid) bitstreams, and the
+	// output bytes must depend only on the image and the options. With
+	// GOMAXPROCS=1 encodeFrameParallel runs with a single row worker.
+	useParallel := enc.mbH >= 4 && enc.config.Method >= 3 && !doSearch
 
 	var stats ProbaStats
 	for pass := 0; pass < maxPasses; pass++ {
